@@ -57,6 +57,10 @@ def cells(fns: List[str]) -> List[Dict[str, Any]]:
             C.append({"id": f"{f}:composed", "fn": f, "expr": f"sqrt(abs({call}))"})
             C.append({"id": f"{f}:times_member", "fn": f, "expr": f"({call} * j.eta() - {call})"})
         C.append({"id": f"{f}:literal", "fn": f, "expr": lit})
+        if f in ("ceil", "floor", "trunc", "round", "rint", "nearbyint", "fabs", "abs", "fmax", "fmin", "fdim", "copysign", "hypot", "cbrt", "sqrt"):
+            # results beyond the int range: a function whose result is stored or typed as an int would wrap
+            big = [a if i else f"({a} * 100000000.0 + 0.5)" for i, a in enumerate(args)]
+            C.append({"id": f"{f}:large", "fn": f, "expr": f"{f}({', '.join(big)})"})
     return C
 
 
@@ -135,8 +139,16 @@ def judge(ctx: Ctx, backend, case, r, failures, isolate) -> bool:
     ctx.count("events_decided", r["verdict"]["decided"])
     ctx.count("events_unspec", r["verdict"]["unspec"])
     src = (Path(str(case._pkg)) / "x")  # package removed after the run; the include is implied by a successful compile
-    for cell in case.tag:
+    branches = r["run"]["book"][0]["branches"] if r["run"]["book"] else []
+    for ci, cell in enumerate(case.tag):
         ctx.count("evaluations")
+        if ci < len(branches) and cell["id"].endswith((":standalone", ":large", ":literal")):
+            from .c13 import type_class
+            tc = type_class(branches[ci]["type"])
+            want = "int" if cell["fn"] == "ilogb" else "float"
+            if tc != want:
+                failures.append((backend, cell, "type", f"the C function {cell['fn']} returns {'int' if want == 'int' else 'a floating value'}; the column is booked as {branches[ci]['type']}"))
+                continue
         if r["verdict"]["rows"] == 0:
             ctx.count("cells_undecided")
             ctx.notes.append(f"undecided: {cell['id']} refs={[x[:2] for x in r['refs']][:2]}")
